@@ -346,6 +346,9 @@ class Check:
                     print(f"note: known finding {e['key']} no longer reproduces (entry can be marked fixed)")
             else:  # fixed: suppresses nothing
                 if r is not None and self.confirm(case) is not None:
+                    # ... except when what fails on this input is a DIFFERENT, listed known finding
+                    if self.classify(case, r) in active_keys(self.prop) and self.classify(case, r) != e["key"]:
+                        continue
                     self.report_violation(case, r, path=rp)
         d = os.path.join(CORPUS_DIR, self.prop)
         if os.path.isdir(d):
